@@ -52,6 +52,10 @@ def grid_scenario(rng, key, family=None, fault_kinds=("none",), np_choices=(2, 3
               "options": workloads.tok_options(geom,
                                                y_boundary_guards=rng.choice((0, 1))),
               "npsi": 65, "wall": rng.choice(("rect", "slanted"))}
+    # tuning knobs vary too: parallel == serial must hold for any options
+    from .histsim import swarm
+
+    swarm(rng, sc["options"])
     kind, bug, clk, opts = fault_plan(rng, key, fault_kinds, kind=fault_kind)
     sc["options"].update(opts)
     sc["fault_kind"] = kind
